@@ -166,7 +166,7 @@ def check(run):
     run.floor('R11.gate', 67)
     run.floor('R13.local', 14)
     run.floor('R11.lcompile', 10)
-    run.floor('R11.compile', 8)
+    run.floor('R11.compile', 36)
     run.decide('ordering (generators, forward loops, forward fold, compose, copy), packing guards of all take methods, '
                'exactly-once placement, bidirectional linking, gate dispatch and locality on every path, layer / gate compile wiring')
     run.decline('equality of the compiled map with the sequential action (needs the semantics of C03/C04); independence of '
